@@ -26,6 +26,7 @@ type mTask struct {
 	Dyn    string // "" or sh text of task var DYN
 	DynEnv string // "" or sh text of env var DE
 	Defer  bool   // the task has a deferred command that prints V
+	Dotenv bool   // dotenv: ['.env'] -- the file of the task's own dir (every dir has one, with its own value of DOTV)
 	Loop   string // "", "matrix-ref", "list"
 	Deps   []mCall
 	Calls  []mCall
@@ -70,6 +71,7 @@ func genM(ch *vs.Choices, tier string) *mProg {
 			t.DynEnv = mShPool[ch.Draw(3)]
 		}
 		t.Defer = ch.Bool(1, 3)
+		t.Dotenv = ch.Bool(1, 3)
 		switch ch.Draw(4) {
 		case 0:
 			t.Loop = "matrix-ref"
@@ -117,6 +119,9 @@ func (p *mProg) YAML() string {
 		if t.Dir != "" {
 			fmt.Fprintf(&sb, "    dir: %s\n", t.Dir)
 		}
+		if t.Dotenv {
+			sb.WriteString("    dotenv: ['.env']\n")
+		}
 		if t.Env != "" || t.DynEnv != "" {
 			sb.WriteString("    env:\n")
 			if t.Env != "" {
@@ -142,7 +147,7 @@ func (p *mProg) YAML() string {
 		if t.Defer {
 			fmt.Fprintf(&sb, "      - defer: %s\n", yq(`echo "O|{{.ID}}|`+t.Name+`|deferred V={{.V}} L={{.L}}"`))
 		}
-		fmt.Fprintf(&sb, "      - cmd: %s\n", yq(`echo "O|{{.ID}}|`+t.Name+`|V={{.V}}|GD={{.GD}}|DYN={{.DYN}}|EV=$EV|DE=$DE|PWD=$(pwd)|TASK={{.TASK}}"`))
+		fmt.Fprintf(&sb, "      - cmd: %s\n", yq(`echo "O|{{.ID}}|`+t.Name+`|V={{.V}}|GD={{.GD}}|DYN={{.DYN}}|EV=$EV|DE=$DE|DOT=$DOTV|PWD=$(pwd)|TASK={{.TASK}}"`))
 		switch t.Loop {
 		case "matrix-ref":
 			fmt.Fprintf(&sb, "      - for:\n          matrix:\n            A:\n              ref: 'concat (list) (splitList \" \" .L)'\n            B: [x, y]\n        cmd: %s\n", yq(`echo "O|{{.ID}}|`+t.Name+`|loop={{.ITEM.A}}-{{.ITEM.B}}"`))
@@ -194,7 +199,9 @@ func runM(t *testing.T, ch *vs.Choices, prop, tier string, render bool) *vs.RunO
 	defer os.RemoveAll(dir)
 	for _, d := range []string{"d1", "d2", "d3"} {
 		_ = os.MkdirAll(filepath.Join(dir, d), 0o755)
+		_ = os.WriteFile(filepath.Join(dir, d, ".env"), []byte("DOTV=from-"+d+"\n"), 0o644)
 	}
+	_ = os.WriteFile(filepath.Join(dir, ".env"), []byte("DOTV=from-root\n"), 0o644)
 	// one of the sh: commands reads a variable whose name it takes from this file (an indirect use that the
 	// command text does not show)
 	_ = os.WriteFile(filepath.Join(dir, "varname.txt"), []byte("L\n"), 0o644)
